@@ -866,13 +866,13 @@ func (b *Builder) PatchConfig() ([]byte, error) {
 	case handlers.LISTENER_HTTP:
 		var (
 			Config    = b.config.ListenerConfig.(*handlers.HTTP)
-			Port, err = strconv.Atoi(Config.Config.PortConn)
+			Port, err = parsePort(Config.Config.PortConn)
 		)
 
 		if Config.Config.PortConn != "" && err != nil {
 			return nil, errors.New("Failed to parse the PortConn: " + Config.Config.PortConn)
 		} else if Config.Config.PortConn == "" {
-			Port, err = strconv.Atoi(Config.Config.PortBind)
+			Port, err = parsePort(Config.Config.PortBind)
 			if err != nil {
 				return nil, errors.New("Failed to parse the PortBind: " + Config.Config.PortBind)
 			}
@@ -925,7 +925,7 @@ func (b *Builder) PatchConfig() ([]byte, error) {
 					Port int
 				)
 
-				if val, err := strconv.Atoi(HostPort[1]); err == nil {
+				if val, err := parsePort(HostPort[1]); err == nil {
 					Port = val
 				} else {
 					logger.Error("Failed convert Port string to int: " + err.Error())
@@ -1023,6 +1023,19 @@ func (b *Builder) PatchConfig() ([]byte, error) {
 	//logger.Debug("DemonConfig:\n" + hex.Dump(DemonConfig.Buffer()))
 
 	return DemonConfig.Buffer(), nil
+}
+
+// parsePort converts a listener port setting; the Demon passes it to WinHttpConnect
+// as a 16 bit INTERNET_PORT, so anything outside 1-65535 cannot be encoded.
+func parsePort(s string) (int, error) {
+	port, err := strconv.Atoi(s)
+	if err != nil {
+		return 0, err
+	}
+	if port < 1 || port > 65535 {
+		return 0, errors.New("port " + s + " is not between 1 and 65535")
+	}
+	return port, nil
 }
 
 func (b *Builder) GetPayloadBytes() []byte {
